@@ -7,6 +7,7 @@ import AnonCreds.Model.Verify
 import AnonCreds.Model.Transcript
 import AnonCreds.Model.Range
 import AnonCreds.Model.Issue
+import AnonCreds.Model.Codecs
 /-
 Line-protocol driver: one request per line on stdin, one reply per line on stdout.
 Unknown or malformed requests answer `bad-op` (never a default value).
@@ -339,6 +340,18 @@ def regOp (d : DState) (toks : List String) : Option (DState × String) :=
     | none => none
   | _ => none
 
+def codecOp (toks : List String) : Option String :=
+  match toks with
+  | ["cd.pspk", b] => (bytesOf? b).map fun b =>
+      match AC.Codecs.psPkShape b with
+      | some (ny, nb) => s!"ok {ny} {nb}"
+      | none => "err"
+  | ["cd.bbspok", b] => (bytesOf? b).map fun b =>
+      match AC.Codecs.bbsPokShape b with
+      | some n => s!"ok {n}"
+      | none => "err"
+  | _ => none
+
 def answer (d : DState) (line : String) : DState × String :=
   let toks := (line.trimAscii.toString.splitOn " ").filter (· ≠ "")
   match claimsOp toks with
@@ -360,6 +373,9 @@ def answer (d : DState) (line : String) : DState × String :=
   | some r => (d, r)
   | none =>
   match issueOp toks with
+  | some r => (d, r)
+  | none =>
+  match codecOp toks with
   | some r => (d, r)
   | none =>
   match regOp d toks with
